@@ -17,7 +17,7 @@ packet slot obtained with get_if_rx / get_if_tx in the runner arms clear_on_drop
 (e) the conditional mutex cannot be left locked without a guard: in IfMutex::lock_if no await lies between the wait that sets
 locked = true and the construction of IfMutexGuard; the guard is constructed only in utils::sync::mutex; its Drop clears the flag.
 """
-CLAUSES = ['a: exchange matching uses id and role; recv claims only packets of its own session', 'b: new-exchange gate', 'c: unclaimed messages discarded on every exit', 'd: drop / guard protocol',
+CLAUSES = ['a: exchange matching uses id and role; recv claims only packets of its own session, and only while that session exists', 'b: new-exchange gate (initiator flag, not a standalone ACK, not an SC status report)', 'c: unclaimed messages discarded on every exit; accept deadline armed by every accepted message; the CloseSession of a dropped exchange is encoded where its session is removed', 'd: drop / guard protocol',
            'e: conditional mutex never held without a guard', 'f: no lost wake-up on the shared packet slots (Signal wakes a displaced waiter)',
            'g: only a session-bearing message is answered with SessionNotFound (no self-feeding reply loop)']
 NOT_DECIDED = ['liveness: subsequent traffic keeps flowing', 'interleavings of concurrent exchanges']
